@@ -216,6 +216,17 @@ def _eval(
                 "Already in dds.eval() context. Nested eval contexts are not supported",
                 DDSErrorCode.EVAL_IN_EVAL,
             )
+        if path is not None and path not in _eval_ctx.requested_paths:
+            # The analysis of the function that is being evaluated has not seen this kept call
+            mod_name = getattr(fun, "__module__", None)
+            raise DDSException(
+                f"The path {path} is kept by {fun} (module '{mod_name}'), but the analysis of the function that"
+                f" is being evaluated did not find this call. The typical cause of the issue is that the module"
+                f" '{mod_name}' has not been whitelisted for use by DDS: the code of such a module is not"
+                f" analysed and it cannot keep results. Use the function 'dds.accept_module' to whitelist"
+                f" {mod_name} or one of its parent packages.",
+                DDSErrorCode.STORE_PATH_NOT_FOUND,
+            )
         key = None if path is None else _eval_ctx.requested_paths[path]
         t = _time()
         if key is not None and _store().has_blob(key):
